@@ -751,6 +751,18 @@ def sx_call(f, *a, **k):
             if _sym_in(a, k):
                 return getattr(SymStr.lift(selfobj), name)(*a, **k)
             return f(*a, **k)
+        if ts in (_real_dict, _real_frozenset, _real_set) and t0 is SymInt:
+            name = f.__name__
+            if name in ("get", "__contains__", "__getitem__"):
+                for kk in selfobj:
+                    if _real_isinstance(kk, int) and not _real_isinstance(kk, bool) and _real_bool(a0 == kk):
+                        return True if name == "__contains__" else (selfobj[kk] if ts is _real_dict else kk)
+                if name == "__contains__":
+                    return False
+                if name == "get":
+                    return a[1] if len(a) > 1 else None
+                raise KeyError(a0)
+            raise Unsupported("%s.%s with symbolic int key" % (ts.__name__, name))
         if ts in (_real_dict, _real_frozenset, _real_set) and t0 is SymStr:
             name = f.__name__
             if a0.is_concrete():
@@ -886,6 +898,8 @@ def sx_contains(container, item):
         return item in container
     if ti is tuple and tc in (list, tuple) and _has_sym(item):
         return any(_keq(x, item) for x in container)
+    if ti is SymInt and tc is _real_dict:
+        return _real_bool(s_or(*[item == x for x in container if _real_isinstance(x, int) and not _real_isinstance(x, bool)]))
     if ti is SymInt:
         if tc in (list, tuple, _real_set, _real_frozenset, range):
             return _real_bool(s_or(*[item == x for x in container if _real_isinstance(x, (int, SymInt))]))
@@ -953,6 +967,11 @@ def sx_fstr(*parts):
 
 def sx_getitem(o, key):
     tk = type(key)
+    if tk is SymInt and type(o) is _real_dict:
+        for kk, vv in o.items():
+            if _real_isinstance(kk, int) and not _real_isinstance(kk, bool) and _real_bool(key == kk):
+                return vv
+        raise KeyError(key)
     if tk is SymStr:
         to = type(o)
         if to is _real_dict or (to is not SDict and to is not SDefaultDict and _real_isinstance(o, _real_dict) and not hasattr(o, "_kv")):
